@@ -38,7 +38,7 @@ ASSUMPTIONS = [
     "faults are injected only at library->user / library->event-loop hand-overs, as the property states; asynchronous exceptions between two library lines are not injected",
     "reading icontract._checkers._IN_PROGRESS is diagnostic: if its representation is not None/set/frozenset of ints rule R2 is switched off and the behavioural rules R1/R3 remain",
 ]
-RUNS = {"quick": 320, "thorough": 9000}
+RUNS = {"quick": 500, "thorough": 9000}
 BUDGET_S = {"quick": 70, "thorough": 1200}
 CHUNK = 5
 
